@@ -57,10 +57,22 @@ Record dcheck := mkDl {
   d_err : bool;                          (* observed: the entry point returned an error *)
   d_hash : option string }.              (* observed FileHash of the returned Verification (DownloadTo only) *)
 
+(* what the real ClearSign produced for an archive signed under file name s_name: the parsed
+   `files:` map of its block.  The model's message_block lists exactly
+   name |-> "sha256:" ++ sha256 archive  (Prov.message_block). *)
+Record sgn := mkSign { s_name : string; s_sha : string; s_sums : option (list (string * string)) }.
+
+Definition sign_ok (x : sgn) : bool :=
+  match s_sums x with
+  | Some [(k, v)] => String.eqb k (s_name x) && String.eqb v ("sha256:" ++ s_sha x)
+  | _ => false
+  end.
+
 Record case := mkCase {
   k_tab : ptab; k_checks : list vcheck;          (* the signed pair and its archive / name / keyring mutants *)
   k_provs : list (option ptab * vcheck);         (* provenance-file mutants; None = same library results as k_tab *)
-  k_dls : list dcheck }.
+  k_dls : list dcheck;
+  k_signs : list sgn }.
 
 Section Run.
   Variable tb : ptab.
@@ -155,7 +167,8 @@ Definition case_ok (c : case) : bool :=
                        | Some tb => tab_ok tb && check_ok tb (snd x)
                        | None => check_ok (k_tab c) (snd x)
                        end) (k_provs c)
-  && forallb (dl_ok (k_tab c)) (k_dls c).
+  && forallb (dl_ok (k_tab c)) (k_dls c)
+  && forallb sign_ok (k_signs c).
 
 Fixpoint mismatches_from (i : nat) (cs : list case) : list nat :=
   match cs with
